@@ -314,6 +314,30 @@ SPECS["C09"] = dict(
     examples=SPECS["C01"]["examples"])
 
 
+# ---- later additions
+SPECS["C02"]["imports"] += "\nFrom BB Require Import Lexer Parser Ebnf G4Data Listener ListenerP ParserP."
+SPECS["C02"]["items"] += [
+    dict(name="run_refines", comment="the event-driven listener (walker events, handlers, the _in_for flag, replay of loop bodies in exitForloop) computes exactly the compositional denotation"),
+    dict(name="handle_item_refines"),
+    dict(name="in_for_invariant"),
+    dict(name="skip_is_needed", comment="... and the flag is necessary: without it loop bodies are executed twice"),
+    dict(name="pscript_sound_lr", comment="the model parser only accepts sentences of the grammar as written (regenerated from blackbird.g4)"),
+]
+SPECS["C10"]["imports"] += "\nFrom BB Require Import Syntax Parser ParserP."
+SPECS["C10"]["items"].append(dict(name="pscript_sound_lr", comment="whatever the model parser accepts is a sentence of the grammar as written"))
+SPECS["C01"]["imports"] += "\nFrom BB Require Import Unparse ExprP UnparseP RoundtripP."
+SPECS["C01"]["items"] = [
+    dict(name="token_roundtrip_total", comment="TOKEN level, every well-formed program whose strings are quote-free and whose operations have modes: the serialiser is defined, the tokens of the serialised script parse back to that script, and loading it gives an equivalent program"),
+    dict(name="token_roundtrip"),
+    dict(name="ser_script_wf", comment="everything the serialiser writes is a well-formed script; every expression it writes is a stratified tree (fully bracketed)"),
+    dict(name="term_expr_WF"),
+    dict(name="unparse_parse_exact", comment="printing any well-formed script to tokens and parsing gives the script back (up to positions)"),
+] + SPECS["C01"]["items"]
+SPECS["C09"]["imports"] = SPECS["C01"]["imports"]
+SPECS["C09"]["items"] = [dict(name="token_roundtrip_total", comment="for every well-formed program VALUE (however assembled): the serialised tokens are accepted and denote an equivalent program"),
+                         dict(name="ser_script_wf")] + SPECS["C09"]["items"]
+
+
 def main():
     which = sys.argv[1:] or sorted(SPECS)
     for p in which:
